@@ -17,8 +17,10 @@ fields: 0 Emp.works_for (WorksFor ⊂ MemberOf), 1 Emp.member_of (MemberOf, inve
 inverse MemberOf), 3 Org.sub_of (SubOf, transitive), 4 Thing.knows, 5 Thing.likes (plain dataclass fields),
 6 Chair.head_of (HeadOf ⊂ WorksFor: inverse Member on the Org; its super-properties live on the role taker),
 7 Chair.manages (Manages ⊂ Employer, no inverse), 8 Emp.employer (Employer), 9 a strong reference that is no relation
-(Chair.emp, Holder.item, the harness's `attach`). `Member`'s inverse `MemberOf` has no field on a Chair (class 8): there
-krrood goes to the role taker — that step and the role-taker super-properties are driver level (`XOp.roleset`). -/
+(Chair.emp, Holder.item, the harness's `attach`). Role structure (all of it in the proven model, `Model/SymbolGraph.lean`):
+`Chair.emp` (field 9) is the role-taker field of class 8; the fields of the role-taker type Emp managed by
+super-properties of HeadOf are works_for, member_of (in that order), of Manages: employer; `Member`'s inverse `MemberOf`
+has no field on a Chair, so the inverse of `members(org → chair)` is looked up on the chair's role taker: member_of. -/
 def schema : Schema where
   subs := fun c => match c with
     | 0 => [1, 2, 4, 8, 9] | 2 => [3] | 4 => [5, 6] | 5 => [7] | 6 => [7] | 10 => [11] | _ => []
@@ -31,6 +33,9 @@ def schema : Schema where
   transitive := fun f => f == 3
   desc := fun f => f
   fuel := 64
+  takerFld := fun c => if c == 8 then some 9 else none
+  takerSupers := fun f c => if c == 8 then (if f == 6 then [0, 1] else if f == 7 then [8] else []) else []
+  takerInverse := fun f c => if c == 8 && f == 2 then some 1 else none
 
 /-- the hierarchy with the classes a history defines at run time (`(defclass c parent)`: `c` becomes the LAST
 direct subclass of `parent`). A class has no instance before it is defined, so running the whole history over the
@@ -86,6 +91,14 @@ def parseOp (pos : Nat) : Sexp → Option (List Op)
   | .list [.atom "query", c] => do
       let c ← c.asNat?
       pure [.mkq (100000 + pos) c none, .evalq (100000 + pos), .dropq (100000 + pos)]
+  -- an evaluation that ends abnormally (`the(...)` raising, handled) or is abandoned after its first result: for the
+  -- registry an evaluation like any other — it sweeps when it starts to run, and nothing of it is left afterwards
+  | .list [.atom "qfail", c] => do
+      let c ← c.asNat?
+      pure [.mkq (100000 + pos) c none, .evalq (100000 + pos), .dropq (100000 + pos)]
+  | .list [.atom "qabandon", c] => do
+      let c ← c.asNat?
+      pure [.mkq (100000 + pos) c none, .evalq (100000 + pos), .dropq (100000 + pos)]
   | .list (.atom "queryd" :: c :: dom) => do
       let c ← c.asNat?
       pure [.mkq (100000 + pos) c (some (← dom.mapM Sexp.asNat?)), .evalq (100000 + pos), .dropq (100000 + pos)]
@@ -108,6 +121,7 @@ def nextPid (h : Heap) : Nat :=
 /-- every `new` gets its `id()` at the moment it runs -/
 def fill (h : Heap) : Op → Op
   | .new o c _ => .new o c (nextPid h)
+  | .newrole o c _ e => .newrole o c (nextPid h) e
   | op => op
 
 abbrev DSt := St (List Nat × Nat)
@@ -132,13 +146,9 @@ def specRunD (q : Quirks) (ops : List Op) : Spec := specRunS schema q ops
 They are interpreted on top of `SG.step` / `specStep`: each is a short program of model operations plus, where a strong
 reference is involved that is no relation (field 9), an edit of the heap's field entries.
 * `attach r o` / `detach r`: `root.knows.append(o)` / `root.knows.clear()`.
-* `newrole o e`: `Chair(o, emp=e)` — a new instance of class 8 holding its role taker.
-* `roleset f o g`: `chair.head_of = g` (f = 6) / `chair.manages = g` (f = 7): the assertion on the role itself
-  (`set f o g`; for `head_of` the inverse `members(g → chair)` comes with it) and what krrood infers THROUGH THE ROLE
-  TAKER `e`, as INFERRED relations (`assertInf` = the model's `ensure2` + `addFact … inferred`): for `head_of` the
-  super-properties `works_for`, `member_of` of `e` (with their own inferences, e.g. `members(g → e)`; the inverse of
-  `members(g → chair)` on the role taker is `member_of(e → g)`, the same relation); for `manages` the super-property
-  `employer` of `e`. An inferred relation that is already known changes nothing (in particular not the scalar field).
+* `newrole o e` / `head o g` / `manage o g` of the case language are operations of the PROVEN model: `Op.newrole o 8 _ e`
+  (`Chair(o, emp=e)`) and `Op.set 6 o g` / `Op.set 7 o g` (`chair.head_of = g` / `chair.manages = g`; the inference
+  through the role taker is part of `SG.addFact`).
 * `newholder o r`: `Holder(o, item=r)`.  `clone o s deep`: a new instance made from the live instance `s` by one of
   the library's / Python's creation paths (copy, deepcopy, pickle, `to_dao(..).from_dao()`): for the registry just a new
   instance of the class of `s`; a Holder's item is shared (shallow) or re-created with label `o + 1` (deep). -/
@@ -146,8 +156,6 @@ inductive XOp where
   | m (op : Op)
   | attach (r o : Nat)
   | detach (r : Nat)
-  | newrole (o e : Nat)
-  | roleset (f : Fld) (o g : Nat)
   | newholder (o r : Nat)
   | clone (o s : Nat) (deep : Bool)
   /-- `new = C(o, f=donor.f)`: a new instance of the donor's class constructed with the donor's CONTAINER for the managed
@@ -163,26 +171,6 @@ def aliased (h : Heap) : Bool := h.out.any (fun o => o.key == aliasMark)
 def addRef (h : Heap) (a b : Obj) : Heap := { h with fields := h.fields ++ [⟨a, 9, b⟩] }
 def refOf (h : Heap) (a : Obj) : Option Obj := (h.fields.find? (fun e => e.owner == a && e.fld == 9)).map (·.val)
 
-/-- the relation krrood infers on the role taker: `PropertyDescriptorRelation(taker, g, field, inferred=True).add_to_graph()` -/
-def assertInf (S : Schema) (q : Quirks) (st : DSt) (f : Fld) (e g : Obj) : DSt :=
-  if st.err then st else
-  match st.h.find e, st.h.find g with
-  | some xe, some xg =>
-    let r := ensure2 lifo st xe xg
-    addFact q S S.fuel r.1 f r.2.1 r.2.2 true
-  | _, _ => st
-
-def specAssertInf (S : Schema) (s : Spec) (f : Fld) (e g : Obj) : Spec :=
-  match s.h.find e, s.h.find g with
-  | some xe, some xg =>
-    let s := (s.ensure xe).ensure xg
-    let r := specAddFact S S.fuel ⟨s.h.fields, s.edges⟩ f ⟨xe.obj, xe.cls⟩ ⟨xg.obj, xg.cls⟩ true
-    { s with h := { s.h with fields := r.fields }, edges := r.edges }
-  | _, _ => s
-
-/-- the fields of the role taker that are super-properties of the role's field (in the order krrood visits them) -/
-def takerFields (f : Fld) : List Fld := if f == 6 then [0, 1] else [8]
-
 def stepXS' (S : Schema) (q : Quirks) (st : DSt) : XOp → DSt
   | .m op => stepS S q st op
   | .attach r o =>
@@ -191,18 +179,6 @@ def stepXS' (S : Schema) (q : Quirks) (st : DSt) : XOp → DSt
   | .detach r =>
     if st.err then st
     else { st with h := { st.h with fields := st.h.fields.filter (fun e => !(e.owner == r && e.fld == 4)) } }
-  | .newrole o e =>
-    if st.err || !st.h.isLive e || st.h.used.contains o then st
-    else let st := stepS S q st (.new o 8 0); { st with h := addRef st.h o e }
-  | .roleset f o g =>
-    if st.err || !(st.h.isLive o && st.h.isLive g) then st
-    else
-      let st := stepS S q st (.set f o g)
-      match refOf st.h o with
-      | some e =>
-        let st := (takerFields f).foldl (fun st f' => assertInf S q st f' e g) st
-        if st.err then st else { st with h := st.h.collect q }
-      | none => st
   | .newholder o r =>
     if st.err || !st.h.isLive r || st.h.used.contains o then st
     else let st := stepS S q st (.new o 12 0); { st with h := addRef st.h o r }
@@ -245,18 +221,6 @@ def specStepX (S : Schema) (q : Quirks) (s : Spec) : XOp → Spec
     if !(s.h.isLive r && s.h.isLive o) then s
     else { s with h := { s.h with fields := s.h.fields ++ [⟨r, 4, o⟩] } }
   | .detach r => { s with h := { s.h with fields := s.h.fields.filter (fun e => !(e.owner == r && e.fld == 4)) } }
-  | .newrole o e =>
-    if !s.h.isLive e || s.h.used.contains o then s
-    else let s := specStepS S q s (.new o 8 0); { s with h := addRef s.h o e }
-  | .roleset f o g =>
-    if !(s.h.isLive o && s.h.isLive g) then s
-    else
-      let s := specStepS S q s (.set f o g)
-      match refOf s.h o with
-      | some e =>
-        let s := (takerFields f).foldl (fun s f' => specAssertInf S s f' e g) s
-        ({ s with h := s.h.collect q } : Spec).prune
-      | none => s
   | .newholder o r =>
     if !s.h.isLive r || s.h.used.contains o then s
     else let s := specStepS S q s (.new o 12 0); { s with h := addRef s.h o r }
@@ -296,9 +260,9 @@ def parseXOne (pos : Nat) (x : Sexp) : Option (List XOp) :=
   match x with
   | .list [.atom "attach", r, o] => do pure [XOp.attach (← r.asNat?) (← o.asNat?)]
   | .list [.atom "detach", r] => do pure [XOp.detach (← r.asNat?)]
-  | .list [.atom "newrole", o, e] => do pure [XOp.newrole (← o.asNat?) (← e.asNat?)]
-  | .list [.atom "head", o, g] => do pure [XOp.roleset 6 (← o.asNat?) (← g.asNat?)]
-  | .list [.atom "manage", o, g] => do pure [XOp.roleset 7 (← o.asNat?) (← g.asNat?)]
+  | .list [.atom "newrole", o, e] => do pure [XOp.m (.newrole (← o.asNat?) 8 0 (← e.asNat?))]
+  | .list [.atom "head", o, g] => do pure [XOp.m (.set 6 (← o.asNat?) (← g.asNat?))]
+  | .list [.atom "manage", o, g] => do pure [XOp.m (.set 7 (← o.asNat?) (← g.asNat?))]
   | .list [.atom "newholder", o, r] => do pure [XOp.newholder (← o.asNat?) (← r.asNat?)]
   | .list [.atom "adopt", o, s, f] => do pure [XOp.adopt (← o.asNat?) (← s.asNat?) (← f.asNat?)]
   | .list [.atom "clone", o, s, .atom how] => do
